@@ -141,6 +141,7 @@ func mkScenario(key, side string, v rvariant, fs []fspec, chunk []int, buf int) 
 		sc.Utf8 = true // these helpers always check
 	}
 	sc.build(fs, len(key))
+	sc.DataErr = len(key)%3 == 0
 	return sc
 }
 
